@@ -77,7 +77,13 @@ def gen_items(rng, pool: List[int], n: int, near_p: float) -> List[Dict[str, Any
             ed = ["charge", rng.randrange(8)]
         elif r < near_p * 1.7:
             ed = ["element", rng.randrange(8)]
+        if rng.random() < 0.12:
+            b = "syn%d" % rng.randrange(4)            # small graphs with plain orders / charges (defaults matter)
+        if ed is None and rng.random() < 0.08:
+            ed = ["charge_set", rng.randrange(4), rng.choice([-1, -2])]   # charges -1 / -2 at the same atom (not isomorphic)
         sp = rcdata.spec(b, rng.randrange(1 << 30) if rng.random() < 0.7 else None, ed)
+        if rng.random() < 0.15:
+            sp["omit_defaults"] = True
         if ed is not None and rng.random() < 0.5:
             # the caller derives the near-miss from an object it delivered earlier: copy, then edit the copy
             sp["relabel"] = None
@@ -177,7 +183,7 @@ def _run(case: Dict[str, Any], sim: Sim, world: World) -> None:
                 d0[akey] = rcdata.invariant_attr_kind(d0["gml"], case["cfg"].get("attr_kind", "str"))
             sim.probe("empty_centre_item")
             return d0
-        src_key = str(sp["base"] % len(rcdata.items()))
+        src_key = str(sp["base"]) if isinstance(sp["base"], str) else str(sp["base"] % len(rcdata.items()))
         if sp.get("derive") and sp.get("edit") and src_key in held:
             src = held[src_key]
             if sp["derive"] == "copy":
@@ -189,7 +195,8 @@ def _run(case: Dict[str, Any], sim: Sim, world: World) -> None:
             rcdata.apply_edit_inplace(g, sp["edit"])
             sim.probe("item_derived_from_delivered_object")
         else:
-            g = rcdata.build({"base": sp["base"], "relabel": sp.get("relabel"), "edit": sp.get("edit")})
+            g = rcdata.build({"base": sp["base"], "relabel": sp.get("relabel"), "edit": sp.get("edit"),
+                              "omit_defaults": sp.get("omit_defaults")})
             if sp.get("relabel") is None and not sp.get("edit") and len(held) < 8:
                 held.setdefault(src_key, g)
         d: Dict[str, Any] = {"gml": g, "uid": uid}
